@@ -67,6 +67,8 @@ class FakeTransport(asyncio.Transport):
 
 # ------------------------------------------------------------------------------------------------ generation
 def generate(job):
+    if job.get('pregen') is not None:
+        return job['pregen']          # generated earlier, by `main_schedule` in another process
     out_dir = os.path.join(job['out_root'], job['pkg'])
     buf = io.StringIO()
     try:
@@ -316,11 +318,37 @@ async def frame(job, mods, cls, msg, plan, rng):
     return out
 
 
+def main_schedule(job):
+    """several dictionaries in ONE process at the granularity of the generator API: `['c', i]` = parse dictionary i and construct
+    its Generator, `['g', i]` = generate() of that object; steps of different dictionaries interleaved as the schedule says.
+    Output: {'gens': [gen result of dictionary i (of its last generate())...]}; the packages are introspected afterwards, each
+    in a process of its own (the worker again, with `pregen`)."""
+    from nasdaq_protocols.fix.parser import parse, Generator
+    jobs = job['jobs']
+    objs, gens = {}, [None] * len(jobs)
+    buf = io.StringIO()
+    for op, i in job['schedule']:
+        j = jobs[i]
+        out_dir = os.path.join(j['out_root'], j['pkg'])
+        try:
+            with contextlib.redirect_stdout(buf):
+                if op == 'c':
+                    objs[i] = Generator(parse(j['xml'], j['version']), j['app'], out_dir, j['prefix'], generate_init_file=j['init_file'])
+                elif i in objs:
+                    gens[i] = {'ok': sorted(os.path.basename(f) for f in objs[i].generate())}
+        except BaseException as e:  # noqa
+            gens[i] = err(e)
+            objs.pop(i, None)
+    sys.stdout.write(json.dumps({'gens': gens}) + '\n')
+
+
 def main():
     job = json.loads(sys.stdin.read())
     sys.path.insert(0, os.path.join(job['repo'], 'src'))
     import logging
     logging.disable(logging.CRITICAL)
+    if 'schedule' in job:
+        return main_schedule(job)
     res = {'gen': None, 'imp': None, 'module': None, 'loaded': None, 'checks': [], 'runs': []}
     res['gen'] = generate(job)
     if 'ok' in res['gen']:
